@@ -50,8 +50,8 @@ Fixpoint desc_pass (g : graph) (l : list node) (D : list node) : list node :=
 Definition desc_set (g : graph) (l : list node) (r : node) : list node := desc_pass g l [r].
 
 (* nx.descendants(graph, r): reachable in one or more steps (r itself excluded) *)
-Definition descb (g : graph) (l : list node) (r x : node) : bool :=
-  negb (Pos.eqb x r) && memb x (desc_set g l r).
+Definition descb_in (D : list node) (r x : node) : bool := negb (Pos.eqb x r) && memb x D.
+Definition descb (g : graph) (l : list node) (r x : node) : bool := descb_in (desc_set g l r) r x.
 
 (* ---- FlowGraph.__hoist ---- *)
 Fixpoint split_at (r : node) (l : list node) : option (list node * list node) :=
@@ -87,7 +87,8 @@ Fixpoint hoist_loops (g : graph) (l0 : list node) (rloops : list node) (l : list
   match rloops with
   | [] => l
   | r :: rs =>
-      let '(l', e') := hoist_one (descb g l0 r) r l endp in
+      let D := desc_set g l0 r in   (* computed once per loop *)
+      let '(l', e') := hoist_one (descb_in D r) r l endp in
       hoist_loops g l0 rs l' e'
   end.
 
@@ -117,15 +118,18 @@ Definition permb (a b : list node) : bool :=
 
 (* every node that was below Loop r and ends above it does not depend on Loop r *)
 Definition lifted_indepb (g : graph) (loops pre post : list node) : bool :=
-  forallb (fun r => forallb (fun x => negb (precb pre r x && precb post x r) || negb (descb g pre r x)) pre) loops.
+  forallb (fun r => let D := desc_set g pre r in
+     forallb (fun x => negb (precb pre r x && precb post x r) || negb (descb_in D r x)) pre) loops.
 
 (* every pair whose relative order was inverted is justified by a loop: the node that went down the
    list is a loop node or depends on one, the node that went up does not depend on that loop.
    (stronger than the property; recorded, not part of the verdict) *)
 Definition inversions_justifiedb (g : graph) (loops pre post : list node) : bool :=
+  let sets := map (fun r => (r, desc_set g pre r)) loops in
   forallb (fun y => forallb (fun x =>
      negb (precb pre y x && precb post x y) ||
-     existsb (fun r => (Pos.eqb y r || descb g pre r y) && negb (descb g pre r x) && negb (Pos.eqb x r)) loops) pre) pre.
+     existsb (fun rD => let r := fst rD in let D := snd rD in
+                (Pos.eqb y r || descb_in D r y) && negb (descb_in D r x) && negb (Pos.eqb x r)) sets) pre) pre.
 
 Definition hoist_spec_okb (g : graph) (loops pre post : list node) : bool :=
   permb pre post && topo_okb g post && lifted_indepb g loops pre post.
@@ -195,8 +199,8 @@ Definition first_bad_edge (g : graph) (l : list node) : string :=
 
 (* first (loop, node) pair lifted above a loop it depends on *)
 Definition first_bad_lift (g : graph) (loops pre post : list node) : string :=
-  match flat_map (fun r => map (fun x => (r, x))
-          (filter (fun x => precb pre r x && precb post x r && descb g pre r x) pre)) loops with
+  match flat_map (fun r => let D := desc_set g pre r in map (fun x => (r, x))
+          (filter (fun x => precb pre r x && precb post x r && descb_in D r x) pre)) loops with
   | [] => "-"
   | (r, x) :: _ => show_N (Npos r) ++ ">" ++ show_N (Npos x)
   end.
